@@ -35,6 +35,9 @@ def plan(tier, seed):
         for pbs in (2, 4):
             cfgs.append(dict(kind="tr", cir=8, cbs=cbs, pir=16, pbs=pbs, N=n, gaps=["S", 1, 2, 8], sizes=[1, 2, 4], order=0))
     cfgs.append(dict(kind="tr", cir=8, cbs=2, pir=16, pbs=4, N=n - 1, gaps=["S", "N", 1, 2, 8], sizes=[1, 2, 4], order=1))
+    # a peak bucket size without a peak rate: no PIR is given, so shaping is against (CIR, CBS)
+    cfgs.append(dict(kind="tr", cir=8, cbs=2, pir=None, pbs=4, N=n, gaps=["S", 1, 2, 8], sizes=[1, 2, 4], order=0))
+    cfgs.append(dict(kind="tr", cir=8, cbs=3, pir=None, pbs=2, N=n, gaps=["S", 1, 2, 8], sizes=[1, 2, 4], order=0))
     return {"cfgs": cfgs, "budget": None,
             "bound": "N<=%d; TokenBucket rate {8,16} x bucket {1,2,3} x peak {None,16,32}; TwoRate CIR 8, CBS {2,3}, PIR {None,16}, PBS {2,4}" % n}
 
